@@ -329,3 +329,10 @@ def r09_5(ctx):
     for val, exp in ((True, "IL_TRUE"), (False, "IL_FALSE")):
         outs = Interp(idx).explore(lambda i, val=val: i.call_function(fbr, [], self_obj=AObj("Bool", {"value": val}, label="self")))
         ctx.check(f"Bool rendering [{val}]", [o.value for o in outs] == [exp], exp, str([outcome_text(o) for o in outs]), fn_where(idx, fbr))
+
+
+@rule("R09.6", "C09", "discarding a dead operand leaves the temporaries of live operations alone: the counter that names them only grows while a behaviour is transformed", min_instances=4)
+def r09_6(ctx):
+    from .c06 import r06_6
+
+    r06_6(ctx)
